@@ -18,8 +18,9 @@ class Cell(NullCell):
     If you want to write to cell use .to_builder() method.
     """
     def __init__(self, bits: BitarrayLike, refs: typing.List["Cell"], cell_type: int = -1) -> None:
-        if not isinstance(bits, TvmBitarray):
-            # a plain bitarray has no overflow / underflow checks and would be padded in place by get_data_bytes
+        if not isinstance(bits, TvmBitarray) or bits.endian != 'big':
+            # a plain bitarray has no overflow / underflow checks and would be padded in place by get_data_bytes; a little-endian
+            # TvmBitarray would be hashed and serialised with its bytes bit-reversed
             # (extend copies bit by bit: the result is big-endian whatever the endianness of the argument)
             plain, bits = bits, TvmBitarray(1023)
             bits.extend(plain)
